@@ -9,7 +9,8 @@ either polarity, gates listed in arbitrary order, constants / negations / repeat
 inputs, structurally equal gates, shared and unused gates, zero-size sections, all 8 option combinations.
 Ill-formed graphs: cycles (self loops, through negated edges, long, behind a finished sub-graph, only
 reachable / only unreachable), undefined literals, doubly defined literals (input/input, input/gate,
-gate/gate, either polarity, constant), latch state clashes (input, gate, constant, other latch).
+gate/gate, either polarity, constant), latch state clashes (constant, input, gate output, other latch; either
+polarity; at any position in the latch list; also combined with other defects).
 Deep graphs: chains of 2000 (thorough: up to 8000) gates entered from the top, acyclic and cyclic."""
 
 CFGS = list(range(8))
@@ -172,18 +173,22 @@ def mutate(rng, g, kind):
             gates.insert(rng.randrange(len(gates) + 1), (flip, 0, 1))
         return True
     if kind == "latchclash":
-        how = rng.choice(["input", "gate", "const", "latch"])
+        # all four kinds (constant, input, gate output, other latch), either polarity, at any position
+        kinds = ["const"] + (["input"] if g["inputs"] else []) + (["gate"] if gates else []) \
+                + (["latch"] if g["latches"] else [])
+        how = rng.choice(kinds)
         flip = rng.randrange(2)
-        if how == "input" and g["inputs"]:
+        if how == "input":
             s = rng.choice(g["inputs"]) ^ flip
-        elif how == "gate" and gates:
+        elif how == "gate":
             s = rng.choice(gates)[0] ^ flip
-        elif how == "latch" and g["latches"]:
+        elif how == "latch":
             s = rng.choice(g["latches"])[0] ^ flip
         else:
             s = flip
         nxt = (rng.choice(g["inputs"] + [0, 1]) ^ rng.randrange(2))
-        g["latches"] = g["latches"] + [(s, nxt, rng.choice(["0", "1", "x"]))]
+        pos = rng.randrange(len(g["latches"]) + 1)
+        g["latches"] = g["latches"][:pos] + [(s, nxt, rng.choice(["0", "1", "x"]))] + g["latches"][pos:]
         if rng.random() < 0.7:
             g["outputs"] = g["outputs"] + [s ^ rng.randrange(2)]
         return True
@@ -214,10 +219,13 @@ def chain(rng, n, cyclic=False):
 
 def gen(rng, n, tier, prefix="rn", **kw):
     cases = []
-    # fixed small cases first: the empty graph, constants only, D10 witnesses, the smallest cycles
+    # fixed small cases first: the empty graph, constants only, latch clashes (the witnesses of the former D10 and
+    # one per kind and polarity), the smallest cycles
     fixed = [
         "%s 0 - - - - - - - -", "%s 7 - - 0,1 1 0 _,0.1 1 -", "%s 0 2 - 2,3 - - - - -",
-        "%s 0 2 2:2:x 2 - - - - -", "%s 0 2 3:0:0 2 - - - - -", "%s 0 - 0:1:1 0,1 - - - - -",
+        "%s 0 2 2:2:x 2 - - - - -", "%s 0 2 3:0:0 2 - - - - -", "%s 0 - 0:1:1 0,1 - - - - -", "%s 0 - 1:0:x 0 - - - - -",
+        "%s 0 2 4:2:0 4 - - - - 4:2:2", "%s 0 2 4:2:0 5 - - - - 5:2:2", "%s 0 2 6:2:0,7:2:1 6 - - - - -",
+        "%s 0 2 7:2:0,6:2:1 6 - - - - -", "%s 0 2 7:2:0 6 - - - - -", "%s 3 2,4 8:2:0 6 - - - - 6:2:4,8:6:6",
         "%s 0 2 4:2:0 4,6 - - - - 4:2:2,6:4:2", "%s 1 - - 2 - - - - 2:2:2", "%s 0 - - 2 - - - - 2:3:3",
         "%s 0 2 - 4 - - - - 4:6:2,6:4:2", "%s 0 2 - 4 - - - - 4:2:7,6:2:5", "%s 4 2 - 4 - - - - 4:2:3",
         "%s 6 2,4 - 6,8,10 - - - - 6:2:4,8:4:2,10:6:8",
@@ -228,7 +236,7 @@ def gen(rng, n, tier, prefix="rn", **kw):
     for i in range(ndeep):
         g = chain(rng, deep if i < 2 else rng.choice([300, 700, 1200]), cyclic=(i % 3 == 2))
         cases.append(fmt_case(prefix, rng.choice(CFGS) | (i & 1), g))
-    kinds = ["wf"] * 10 + ["cycle"] * 3 + ["longcycle"] * 3 + ["undefined"] * 3 + ["redefined"] * 3 + ["latchclash"] * 3 \
+    kinds = ["wf"] * 10 + ["cycle"] * 3 + ["longcycle"] * 3 + ["undefined"] * 3 + ["redefined"] * 3 + ["latchclash"] * 4 \
             + ["two"] * 2
     while len(cases) < n:
         kind = rng.choice(kinds)
